@@ -460,6 +460,8 @@ def run(tier):
     rule_R13(res, prog)
     rule_R14(res, prog)
     rule_R15(res, prog)
+    rule_R16(res, prog)
+    rule_R17(res, prog)
     return res.finish()
 
 
@@ -1443,4 +1445,115 @@ def rule_R15(res, prog):
                                      "smaller block (checked against the stale fragLenStored only) - heap overflow before authentication" % (
                                          fn.relfile, ln, cu.ftext(size)[:40], [p_[1] for p_ in esc[-6:]]), file=fn.relfile, line=ln)
                     res.instance(rid, "parseSSLHandshake:%s stream-style reassembly buffer only on not-DTLS paths" % ln, esc is None, finding=f_)
+    res.floor(rid, 1)
+
+
+def rule_R16(res, prog):
+    """'never writes outside live objects' for buffers owned by a structure field: where a function allocates FIELD =
+    alloc(.., S) and later copies into FIELD with memcpy(FIELD, src, N), the copy length is the allocation size - the same
+    expression, or the allocation is that expression plus a constant.  (A replacement session ticket was allocated with the
+    OLD ticket's length and filled with the new one's.)  One reviewed exception, named below."""
+    import re
+    from sa import cfgutil as cu
+    rid = "C08.R16"
+    res.rule(rid, "a copy into a field's freshly allocated buffer has the length the buffer was allocated with")
+    ALLOC = {"malloc", "psMalloc", "Malloc", "calloc", "psCalloc"}
+    MEMCPY = {"memcpy", "__builtin_memcpy", "__builtin___memcpy_chk", "Memcpy"}
+    REVIEWED = {
+        ("parseSSLHandshake", "ssl->fragMessage", "ssl->fragIndex"):
+            "stream-style reassembly: fragIndex = (end - c) + hshakeHeadLen is stored under the branch fact (end - c) < hsLen, the buffer is hsLen + hshakeHeadLen",
+    }
+
+    def sc(e):
+        e = strip(e)
+        while e is not None and e.get("k") == "cast":
+            e = strip(e["e"])
+        return e
+    n = 0
+    for fn in sorted(prog.functions.values(), key=lambda f: f.qname):
+        if not fn.blocks or not fn.relfile.startswith("matrixssl/") or "/test/" in fn.relfile:
+            continue
+        allocs = {}
+        for b in fn.blocks:
+            for i, ln, x in cu.block_exprs(b):
+                for m in walk(x):
+                    if m.get("k") == "bin" and m["op"] == "=":
+                        l, r = sc(m["l"]), sc(m["r"])
+                        if l is not None and l.get("k") == "mem" and r is not None and r.get("k") == "call" and r.get("fn") in ALLOC and r.get("a"):
+                            allocs.setdefault(cu.ftext(l), []).append((ln, cu.ftext(sc(r["a"][-1]))))
+        if not allocs:
+            continue
+        for b in fn.blocks:
+            for i, ln, x in cu.block_exprs(b):
+                for m in walk(x):
+                    if m.get("k") == "call" and m.get("fn") in MEMCPY and len(m.get("a", [])) >= 3:
+                        d = sc(m["a"][0])
+                        if d is None or d.get("k") != "mem" or cu.ftext(d) not in allocs:
+                            continue
+                        dt, nt = cu.ftext(d), cu.ftext(sc(m["a"][2]))
+                        n += 1
+                        sizes = [a[1] for a in allocs[dt]]
+                        ok = nt in sizes or any(s_ in ("(%s + 1)" % nt, "(%s + 2)" % nt, "(1 + %s)" % nt) for s_ in sizes) or \
+                            any(re.match(r"^\d+$", nt) and re.match(r"^\d+$", s_) and int(nt) <= int(s_) for s_ in sizes) or \
+                            (fn.name, dt, nt) in REVIEWED
+                        f_ = None
+                        if not ok:
+                            f_ = Finding(PROP, rid, fn.name, "copy length differs from the allocation size",
+                                         "%s:%s %s(): memcpy(%s, .., %s) fills a buffer this function allocated with size %s (line %s): the two "
+                                         "lengths are different expressions, so a peer that makes the copied length the larger one (a replacement "
+                                         "session ticket longer than the one held) writes past the heap block" % (
+                                             fn.relfile, ln, fn.name, dt, nt, " / ".join(sizes), allocs[dt][0][0]), file=fn.relfile, line=ln)
+                        res.instance(rid, "%s:%s memcpy(%s, .., %s) vs allocation %s" % (fn.name, ln, dt, nt, "/".join(sizes)), ok, finding=f_)
+    res.floor(rid, 15)
+
+
+def rule_R17(res, prog):
+    """'never writes outside live objects' on the sending side, where the size of the output area was fixed earlier by an
+    estimate: (a) fragmentHSMessage (DTLS) writes its first record only after the number of fragments the PMTU requires was
+    compared with MAX_FRAGMENTS - the flight buffer is sized for that many; (b) tls13FillInPskBinders copies a binder only
+    under the fact that it still fits into the space reserved for the binders vector (ssl->sec.tls13BindersLen): the writer
+    of the identities may have left PSKs out."""
+    from sa import cfgutil as cu
+    rid = "C08.R17"
+    res.rule(rid, "writers into a pre-sized output area re-check the bound the size estimate assumed (DTLS fragment count, TLS 1.3 binders vector)")
+    n = 0
+    lst = prog.by_name.get("fragmentHSMessage")
+    if lst:
+        fn = lst[0]
+        MAXF = prog.const("MAX_FRAGMENTS")
+        n += 1
+        esc = cu.escapes(fn, (fn.entry, None), lambda x: ("> %d)" % MAXF) in cu.ftext(x) or (">= %d)" % (MAXF + 1)) in cu.ftext(x),
+                         target_expr=lambda x: cu.mentions_call(x, {"psWriteRecordInfo"}))
+        f_ = None
+        if esc is not None:
+            f_ = Finding(PROP, rid, fn.name, "fragment count not bounded before writing",
+                         "%s:%s fragmentHSMessage(): the first psWriteRecordInfo() is reachable (via lines %s) without a comparison of the "
+                         "fragment count with MAX_FRAGMENTS (%d): the flight buffer is sized for that many fragments of one message, so with a "
+                         "small PMTU and a long certificate chain every further fragment is written behind it" % (
+                             fn.relfile, esc[-1][1], [p_[1] for p_ in esc[-5:]], MAXF), file=fn.relfile, line=esc[-1][1])
+        res.instance(rid, "fragmentHSMessage: fragment count compared with MAX_FRAGMENTS before the first record is written", esc is None, finding=f_)
+    lst = prog.by_name.get("tls13FillInPskBinders")
+    if lst:
+        fn = lst[0]
+        gf = cu.guard_facts(fn)
+        for b, ln, c in fn.calls():
+            if c.get("fn") in ("memcpy", "__builtin_memcpy", "__builtin___memcpy_chk") and c.get("a"):
+                d = strip(c["a"][0])
+                while d is not None and d.get("k") == "cast":
+                    d = strip(d["e"])
+                if d is None or d.get("k") != "var" or d.get("n") != "p":
+                    continue
+                n += 1
+                # the cursor moves between the test and the copy, so this is a must-pass search rather than a branch fact
+                esc = cu.escapes(fn, (fn.entry, None), lambda x: "tls13BindersLen" in cu.ftext(x) and ">" in cu.ftext(x),
+                                 target_expr=lambda x, c=c: any(m is c for m in walk(x)))
+                ok = esc is None
+                f_ = None
+                if not ok:
+                    f_ = Finding(PROP, rid, fn.name, "binder written without a bound",
+                                 "%s:%s tls13FillInPskBinders(): the binder is copied to the cursor without the fact that it fits into the reserved "
+                                 "binders vector (ssl->sec.tls13BindersLen): tls13WritePreSharedKey leaves out PSKs whose hash no offered suite "
+                                 "covers, this loop does not, so a binder for the skipped PSK lands behind the ClientHello - past the output buffer "
+                                 "when that was sized exactly" % (fn.relfile, ln), file=fn.relfile, line=ln)
+                res.instance(rid, "tls13FillInPskBinders:%s binder copy inside the reserved vector" % ln, ok, finding=f_)
     res.floor(rid, 1)
